@@ -7,6 +7,7 @@ exactly as the Rust code does (`averageFrameAdvantage`), and the gap between the
 not proved (Lean cannot reason about `Float32`): this property is partial for that reason.
 `checkWaitRecommendation` models `P2PSession::check_wait_recommendation`.
 -/
+import GgrsModel.Model.Inventory
 import GgrsModel.Model.P2P
 import GgrsModel.Proofs.Monad
 
